@@ -21,7 +21,9 @@ impl<'a, F> MiniChain<'a, F> {
             sector_ids.push(current_sector_id);
             current_sector_id =
                 minialloc.next_mini_sector(current_sector_id)?;
-            if current_sector_id == first_sector_id {
+            if current_sector_id == first_sector_id
+                || sector_ids.len() > minialloc.num_minifat_entries()
+            {
                 invalid_data!(
                     "Minichain contained duplicate sector id {}",
                     current_sector_id
